@@ -60,3 +60,32 @@ Example C01_nonvacuous :
      ERand [3]%nat [1 # 2; 1 # 2; 1 # 2]%Q; ERand [3]%nat [1 # 4; 1 # 4; 1 # 4]%Q;
      ERand [4; 2]%nat [0; 0; 0; 0; 0; 0; 0; 0]%Q] = Ok (U, []).
 Proof. eexists. vm_compute. reflexivity. Qed.
+
+(* ---- whole runs: the box is an invariant of every run.  [run c xl xu pop streams pops offs]: in every generation the model's mating
+   (any rank attributes, its own part of the draw stream) proposes the offspring from the current population and the next population is
+   ANY list made of members of the current population and of these offspring - which is what ImprovementReplacement (C02), the
+   rank-and-crowding survivals (C03, C06: survivors are indices into population + offspring) and every other survival do.  Then the
+   offspring of EVERY generation and every population lie inside the box, provided the initial population does. ---- *)
+From Coq Require Import Lqa.
+From PV Require Import Proofs.RunP.
+Theorem C01_every_generation_in_box :
+  forall (c : vcfg (N := Qn)) xl xu pop streams pops offs,
+    0 < length xl -> length xu = length xl -> Forall unit_events streams -> Forall (boxed xl xu) pop ->
+    run c xl xu pop streams pops offs ->
+    Forall (Forall (boxed xl xu)) offs /\ Forall (Forall (boxed xl xu)) pops.
+Proof. exact run_stays_in_box. Qed.
+Print Assumptions C01_every_generation_in_box.
+
+(* non-vacuity: one generation of the configuration above, the offspring becoming the next population *)
+Definition C01_cfg : vcfg (N := Qn) :=
+  {| v_sel := SRand; v_ndiffs := 1; v_fc := FScalar (N := Qn) 2%Q; v_gamma := None; v_strat := BounceBack; v_cx := Bin; v_cr := 1%Q |}.
+Definition C01_stream : list (event Qn) :=
+  [EChoice 4 4 [1; 2; 3; 0]; EChoice 4 4 [2; 3; 0; 1]; EChoice 4 4 [3; 0; 1; 2];
+   ERand [3]%nat [1 # 2; 1 # 2; 1 # 2]%Q; ERand [3]%nat [1 # 4; 1 # 4; 1 # 4]%Q; ERand [4; 2]%nat [0; 0; 0; 0; 0; 0; 0; 0]%Q].
+Example C01_run_nonvacuous :
+  exists U1, run C01_cfg [0; 0]%Q [1; 1]%Q [[0; 0]; [1; 1]; [1 # 2; 0]; [0; 1]]%Q [C01_stream] [U1] [U1] /\ unit_events C01_stream.
+Proof.
+  eexists. split.
+  - eapply (run_cons C01_cfg [0; 0]%Q [1; 1]%Q _ [None; None; None; None] C01_stream []); [vm_compute; reflexivity|intros x Hx; right; exact Hx|constructor].
+  - intros e He u Hu. cbn in He. repeat (destruct He as [<-|He]; [cbn in Hu; repeat (destruct Hu as [<-|Hu]; [split; cbn; lra|]); try contradiction|]). contradiction.
+Qed.
